@@ -185,7 +185,7 @@ def c04d(prog, R):
         f = prog.need(name)
         h = prog.hir.get(name)
         sites = hir_sites(h["body"], lambda n: n.get("k") == "ret" and n.get("e") is not None and "Err(" in hir_expr_str(n["e"]))
-        ok = any(cmp_txt in s.guard_texts() for s in sites)
+        ok = any(s.guard_texts() == [cmp_txt] for s in sites)    # exactly this condition: a narrower one lets a missing file pass
         r.check(ok, "%s|%s => Err" % (name, cmp_txt), "recovery no longer fails when a file named by the version is missing", f.where(),
                 str([s.guard_texts()[-1:] for s in sites]))
     from rules.props import c20
